@@ -414,10 +414,25 @@ func init() {
 				fail("getNumFmtID: second if with the id ranges")
 			} else {
 				lits := c17IntLits(cond)
+				if ce, ok := cond.(*ast.CallExpr); ok {
+					// the condition delegates to isLangNumFmt: same ranges
+					if id, ok := ce.Fun.(*ast.Ident); ok && id.Name == "isLangNumFmt" {
+						if lf := funcDecl("", "isLangNumFmt"); lf != nil && len(lf.Body.List) == 1 {
+							lits = c17IntLits(lf.Body.List[0])
+						}
+					}
+				}
 				if len(lits) == 0 || len(lits)%2 != 0 {
 					fail("getNumFmtID: range literals")
 				}
 				fmt.Fprintf(w, "/-! styles.go getNumFmtID: `%s` -/\ndef getNumFmtRanges : List (Int × Int) := %s\n\n", src(cond), c17Pairs(lits))
+			}
+			// the value getNumFmtID yields for a currency format whose code is not stored yet
+			body := src(fd.Body)
+			if v, ok := intConst("unregisteredNumFmtID"); ok && strings.Contains(body, "numFmtID = unregisteredNumFmtID") {
+				fmt.Fprintf(w, "/-! styles.go getNumFmtID: currency format code not in numFmts -/\ndef currencyUnregisteredId : Int := %s\n\n", v)
+			} else {
+				fail("getNumFmtID: `numFmtID = unregisteredNumFmtID` in the currency branch")
 			}
 		} else {
 			fail("func getNumFmtID")
